@@ -224,13 +224,14 @@ func genCase(seed int64, big bool) *bcase {
 			case r.ForHostInterface && rnd.Intn(2) == 0:
 				r.HostPreDnatTiers = append([]polprog.Tier{bt}, r.HostPreDnatTiers...)
 			case r.ForHostInterface:
-				r.HostForwardTiers = append(r.HostForwardTiers, bt)
+				r.HostForwardTiers = append([]polprog.Tier{bt}, r.HostForwardTiers...)
 			case rnd.Intn(3) == 0:
 				r.HostPreDnatTiers = append([]polprog.Tier{bt}, r.HostPreDnatTiers...)
 			case rnd.Intn(2) == 0:
 				r.Tiers = append([]polprog.Tier{bt}, r.Tiers...)
 			default:
-				r.Tiers = append(r.Tiers, bt)
+				// after a tier that passes everything on, so the big tier is reachable
+				r.Tiers = append([]polprog.Tier{{Name: "passall", EndAction: polprog.TierEndPass, EndRuleID: 3}, bt}, r.Tiers...)
 			}
 		}
 	}
